@@ -15,8 +15,9 @@ BASE = "/root/.vp/BASELINE.json"
 
 def main():
     pats = sys.argv[1:] or ["./..."]
-    env = dict(os.environ, GOFLAGS="-mod=mod", GOPROXY="off", GOSUMDB="off", GOTOOLCHAIN="local")
-    p = subprocess.Popen(["go", "test", "-json", "-vet=off", "-count=1", "-timeout", "25m"] + pats,
+    env = dict(os.environ, GOPROXY="off", GOSUMDB="off", GOTOOLCHAIN="local")
+    env.pop("GOFLAGS", None)  # the pinned suite runs with the default module mode (TestErrImportPkg expects its error text)
+    p = subprocess.Popen(["go", "test", "-json", "-vet=off", "-count=1", "-timeout", os.environ.get("VERIF_TEST_TIMEOUT", "25m")] + pats,
                          cwd=REPO, env=env, stdout=subprocess.PIPE, stderr=subprocess.DEVNULL, text=True)
     passed, failed, pkgs = set(), set(), set()
     for line in p.stdout:
